@@ -8,6 +8,8 @@ operation list (3 orders), LATT+SYMM reduction round trip, expansion.
 """
 from collections import defaultdict
 
+import numpy as np
+
 from mc.ref import symm
 
 PROPERTY = "C02"
@@ -200,6 +202,29 @@ def check_setting(part, row, table_by_number):
             part.fail("lookup-reduced-str-raise:%s" % sk, "LATT+SYMM(string) round trip of %s raised %s" % (sk, type(e).__name__), case)
     except Exception as e:
         part.fail("reduce-raise:%s" % sk, "latt/reduced_symmetry_operations of %s raised %r" % (sk, e), case)
+    # products computed the way a user computes them - floating-point matrices: R = Ra Rb Rc, t = Ra (Rb tc + tb) + ta - and turned
+    # back into an operation: the packed code of g.g.g and g.h.g is the code of the exact product (closure, at the level of the code)
+    try:
+        lib_ops = [SymmetryOperation.from_integer_code(c) for c in codes]
+        hs = lib_ops[:6]
+        for gi, g in enumerate(lib_ops):
+            Rg, tg = np.asarray(g.rotation, dtype=float), np.asarray(g.translation, dtype=float)
+            for hi, h in enumerate(hs + [g]):
+                part.tr()
+                Rh, th = np.asarray(h.rotation, dtype=float), np.asarray(h.translation, dtype=float)
+                Rp = Rg @ Rh @ Rg
+                tp = Rg @ (Rh @ tg + th) + tg
+                want_c = symm.encode(symm.compose(ops[gi], symm.compose(ops[hi] if hi < len(hs) else ops[gi], ops[gi])))
+                got_c = int(SymmetryOperation(Rp, tp).integer_code)
+                if got_c != want_c or got_c not in set(codes):
+                    part.fail("float-product-code:%s" % sk, "the product %s . %s . %s of operations of %s, formed with floating-point matrices, packs to code %d; the exact product is %d (%s)"
+                              % (symm.canonical_string(ops[gi]), symm.canonical_string(ops[hi] if hi < len(hs) else ops[gi]), symm.canonical_string(ops[gi]), sk, got_c, want_c,
+                                 symm.canonical_string(symm.decode(want_c))), case)
+                    raise StopIteration
+    except StopIteration:
+        pass
+    except Exception as e:
+        part.fail("float-product-raise:%s" % sk, "forming products of operations of %s raised %r" % (sk, e), case)
     # a setting that went through pickle / copy.deepcopy / copy.copy is still the same setting: same operations, same LATT, and its
     # reduced description is still looked up as this group
     import copy
